@@ -144,13 +144,17 @@ func (p *probeRT) RoundTrip(req *http.Request) (*http.Response, error) {
 		runtime.Goexit()
 	}
 	vsched.HarnessPoint("probe-send")
+	sent := 0
+	if n := memnet.Cur(); n != nil {
+		sent = n.Mark2("probe-sent", req.URL.Host, 0, "")
+	}
 	resp, err := p.inner.RoundTrip(req)
-	// what the proxy is about to learn from this probe
+	// what the proxy is about to learn from this probe (Conn = sequence number of its probe-sent event)
 	if n := memnet.Cur(); n != nil {
 		if err != nil {
-			n.Mark2("probe-result", req.URL.Host, 0, err.Error())
+			n.MarkRef("probe-result", req.URL.Host, 0, err.Error(), sent)
 		} else {
-			n.Mark2("probe-result", req.URL.Host, resp.StatusCode, "")
+			n.MarkRef("probe-result", req.URL.Host, resp.StatusCode, "", sent)
 		}
 	}
 	vsched.HarnessPoint("probe-recv")
@@ -756,4 +760,16 @@ func sortedKeys[V any](m map[string]V) []string {
 	}
 	sort.Strings(ks)
 	return ks
+}
+
+func init() {
+	// maps keyed by *http.Request (Target.inflight) are iterated in request-id order, rotated by the search
+	vsched.KeyID = func(k any) (string, bool) {
+		if r, ok := k.(*http.Request); ok && r != nil {
+			if id := r.Header.Get("X-Request-Id"); id != "" {
+				return id, true
+			}
+		}
+		return "", false
+	}
 }
